@@ -3,7 +3,7 @@ CONSTANTS
   NClasses = 4
   NInsts = 0
   Bodies = {}
-  Cfgs = {"pmax"}
+  Cfgs = {"pmaxK"}
   Muts = {}
   DescIds = {"d"}
   MaxBases = 2
